@@ -81,15 +81,23 @@ class Oracle:
         post_raw = ctx.raw()
         case = {"world": self.world.name, "history": list(hist), "error": list(out.error)}
         expected = pre_raw
+        baseline = snap
         if op.meta.get("multi") and getattr(ctx, "spy_log", None):
-            done = [e for e in ctx.spy_log if e[3] == "completed"]
-            if done:
+            log = ctx.spy_log
+            done = [e for e in log if e[3] == "completed"]
+            if done or op.meta.get("prefix"):
                 post_snap = ctx.snapshot()
+                spy_arg = getattr(ctx, "spy_arg", None)
                 ctx.restore(snap)
+                ctx.spy_arg = spy_arg
                 m = op.meta["market"]
-                for name, a, k, _ in done:
-                    getattr(m, name)(*a, **k)
+                if op.meta.get("prefix"):
+                    op.meta["prefix"](ctx, log)
+                else:
+                    for name, a, k, _ in done:
+                        getattr(m, name)(*a, **k)
                 expected = ctx.raw()
+                baseline = ctx.snapshot()
                 ctx.restore(post_snap)
                 part.count("multi_step_prefix_judged")
         changed = diff_fields(expected, post_raw)
@@ -106,7 +114,7 @@ class Oracle:
                 continue
             o1 = kit.apply(ctx, nxt)
             r1 = ctx.raw()
-            ctx.restore(snap)
+            ctx.restore(baseline)
             labels = {o.label: o for o in self.world.alphabet(ctx)}
             if nxt.label in labels:
                 o2 = kit.apply(ctx, labels[nxt.label])
